@@ -9,6 +9,22 @@ standard sampler, extracted from the current source on every run; `Gen.Interrupt
 that `ImportanceNestedSampler.checkpoint` returns before writing when it is not a periodic checkpoint.
 The property is FALSE for the code as it stands inside a window of the iteration (known finding F4):
 both directions are proved — safe outside the window, inconsistent inside it, for every state.
+
+GRANULARITY AND WHAT IS NOT SHOWN
+* An instant is a boundary between two of the seven state-mutating statements of `consume_sample` /
+  `insert_live_point` (`Tag`); `state.increment(...)` is ONE step of the model.  "Window exact" therefore means exact
+  at that granularity.  On the real code the window opens earlier, at the first mutating statement INSIDE
+  `_NSIntegralState.increment` (`self.nlive.append`): the harness interrupts before every statement line of
+  `increment` too, finds every later line of it unsafe (integrator lists of unequal length after the restart) and
+  routes those to the same known finding F4; the lines before that statement are compared with the model as "only
+  `logLmin` assigned".  Interruptions inside a single Python statement are not enumerated.
+* `ins_handler_noop` is about the generated flag `insGuardFirst` (first statement of `ImportanceNestedSampler.checkpoint`
+  is a guard taken for `periodic=False` that returns without calling anything that writes); that the boundary
+  checkpoint on disk stays byte-identical is checked on the real sampler by the harness.
+* "The checkpoint is written before exit", "the exit code is the configured one", "the pool is closed" are checked by
+  the harness with a real SIGTERM to a child process; no theorem states them.
+* The flow-proposal phase (pool of pre-drawn samples, training inside `check_state`) is not in the model; the same
+  interruption experiment is run on a real flow-phase sampler and judged by the oracle only.
 -/
 namespace NessaiVerif.C13
 open NessaiVerif.Interrupt NessaiVerif.Gen.Interrupt
